@@ -183,7 +183,9 @@ type Case struct {
 	Prime int `json:"prime,omitempty"`
 }
 
-const maxSteps = 4096
+// maxSteps bounds one execution: the longest documents (8 KiB boundary sweeps of two-byte values) have ~4100 tokens;
+// reaching the bound means the decoder never reports EOF or an error
+const maxSteps = 1 << 16
 
 // trace runs the program (then ReadToken until the end) on a decoder over rd and returns the observations.
 // checkBuf, if non-nil, is called after every call with the bytes taken from the reader so far.
